@@ -32,6 +32,10 @@ Verdict(c) ==
        THEN "a recovery entry point decoded a damaged checkpoint or segment download into a different state instead of failing"
   ELSE IF ~Matches(c, AllIds(c), c.node) THEN "node state after apply_recovered_state differs from the merge"
   ELSE IF ~Matches(c, AllIds(c), c.node2) THEN "repeating recovery changes the node state"
+  ELSE IF "node_staged" \in DOMAIN c /\ ~Matches(c, AllIds(c), c.node_staged)
+       THEN "the start-up sequence (object store, then WAL replayed on top) does not leave the merge of everything persisted"
+  ELSE IF "ckpt_race" \in DOMAIN c /\ \E r \in Range(c.ckpt_race) : r.ok /\ ~Matches(c, ObjIds(c), r.fold)
+       THEN "recovery that overlapped the publication of the next checkpoint returned neither image (updates of the segments in between are missing)"
   ELSE "ok"
 TraceInit == l = 1
 TraceNext ==
